@@ -16,7 +16,27 @@
 
 namespace {
 
-const char *NAMES[] = {"render", "frame", "commit", "x"};
+// 4 common names, then 200 more: mostly short (stored inside a std::string object), every seventh long (on the heap)
+struct NamePool
+{
+  char store[C20_NAMES][64];
+  const char *ptr[C20_NAMES];
+  NamePool()
+  {
+    static const char *first[] = {"render", "frame", "commit", "x"};
+    for (int i = 0; i < C20_NAMES; i++) {
+      if (i < 4)
+        snprintf(store[i], sizeof store[i], "%s", first[i]);
+      else if (i % 7 == 3)
+        snprintf(store[i], sizeof store[i], "a-rather-long-event-name-kept-on-the-heap-%03d", i);
+      else
+        snprintf(store[i], sizeof store[i], "n%03d", i);
+      ptr[i] = store[i];
+    }
+  }
+};
+NamePool name_pool;
+const char *const *NAMES = name_pool.ptr;
 const char *CATS[] = {"cat-one", "io", nullptr};
 char g_path[256];
 
@@ -288,10 +308,13 @@ void tplan_common(int tier, int global)
   tplan.sequential = sim_plan(4) == 0;
   tplan.process_name = (int)sim_plan(3) != 0;
   sim_set_clock_jumps((int)sim_plan(2));
+  tplan.many_names = sim_plan(4) == 0;
   for (int t = 0; t < tplan.nthreads; t++) {
     tplan.named[t] = 1;
     unsigned b = sim_plan(10);
     tplan.bulk[t] = 0;
+    if (tplan.many_names && b != 0 && sim_plan(2))
+      tplan.bulk[t] = 20 + (int)sim_plan(120);
     if (b == 0)
       tplan.bulk[t] = tplan.chunk <= 8 ? (int)tplan.chunk - 1 + (int)sim_plan(3) : (tier && sim_plan(6) == 0 ? 8190 + (int)sim_plan(4) : 0);
     unsigned n = sim_plan(6);
@@ -302,7 +325,7 @@ void tplan_common(int tier, int global)
       C20TOp &op = tplan.ops[t][i];
       static const uint8_t kinds[] = {C20_BEGIN, C20_BEGIN, C20_END, C20_END, C20_MARKER, C20_COUNTER};
       op.kind = kinds[sim_plan(6)];
-      op.name = (uint8_t)sim_plan(4);
+      op.name = (uint8_t)(tplan.many_names ? 4 + sim_plan(C20_NAMES - 4) : sim_plan(4));
       op.cat = (uint8_t)sim_plan(3);
       op.value = sim_plan(3) == 0 ? 0xffffffffu - sim_plan(5) : sim_plan(100000);
     }
@@ -483,9 +506,9 @@ int stuck(int deadlock, char *cls, size_t n)
 
 void tdescribe(char *buf, size_t n)
 {
-  int k = snprintf(buf, n, "{\"api\": \"%s\", \"chunk\": %u, \"threads\": %d, \"process_name\": %d, \"thread0_records\": %d, \"one_after_another\": %d, \"events_per_thread\": [",
+  int k = snprintf(buf, n, "{\"api\": \"%s\", \"chunk\": %u, \"threads\": %d, \"process_name\": %d, \"thread0_records\": %d, \"one_after_another\": %d, \"names_from_pool_of_200\": %d, \"events_per_thread\": [",
                    tplan.global_api ? "free functions (global recorder)" : "private TraceRecorder", tplan.chunk, tplan.nthreads, tplan.process_name,
-                   tplan.t0_records, tplan.sequential);
+                   tplan.t0_records, tplan.sequential, tplan.many_names);
   for (int t = 0; t < tplan.nthreads; t++)
     k += snprintf(buf + k, n - k, "%s\"%d bulk + %d scripted\"", t ? "," : "", tplan.bulk[t], tplan.nops[t]);
   snprintf(buf + k, n - k, "]}");
@@ -647,7 +670,7 @@ SimRegistrar ireg(&iscen);
 
 extern "C" {
 const C20TPlan *c20t_plan() { return &tplan; }
-const char *c20_name(int i) { return NAMES[i & 3]; }
+const char *c20_name(int i) { return NAMES[i % C20_NAMES]; }
 const char *c20_cat(int i) { return CATS[i % 3]; }
 const char *c20_path() { return g_path; }
 void c20t_thread_begin(int slot, int named, unsigned long long key)
